@@ -120,10 +120,11 @@ func (enc *Encoder) writeValue(v interface{}, encode func(m ValueEncoder, v inte
 	enc.doWriteValue(v, encode)
 }
 
-// maxEncodeDepth bounds the nesting of the value an encoder is given. A struct reached through
-// an interface or a list passes two of the places that count (writeValue and the struct
-// encoder), so twice the decoder's limit lets the encoder write back whatever the decoder reads.
-const maxEncodeDepth = 4 * maxDepth
+// maxEncodeDepth bounds the nesting of the value an encoder is given, counted in steps: a
+// struct reached through an interface or a list passes several of the places that count.
+// 400000 steps are what the goroutine stack bears for the most expensive shape (measured),
+// and enough for a chain of a hundred thousand nodes of any shape - what the decoder reads.
+const maxEncodeDepth = 400000
 
 // cycleCheckDepth: below it nesting is only counted; deeper than any ordinary data the values
 // on the way down are remembered, so that a value that contains itself is found one lap
